@@ -18,11 +18,11 @@ import (
 // C14 — tokens tile the input; longest match; spacing is insignificant.
 
 type scanTok struct {
-	Kind               string
-	Start, Pos, End    int
-	Value              string
-	NL                 bool
-	ErrorsBefore       int // number of error callbacks seen before this token was returned
+	Kind            string
+	Start, Pos, End int
+	Value           string
+	NL              bool
+	ErrorsBefore    int // number of error callbacks seen before this token was returned
 }
 
 type scanOut struct {
